@@ -145,7 +145,12 @@ class _G:
             for _ in range(rng.randint(2, 4)):
                 r = rng.random()
                 if r < 0.35:
-                    steps.extend(self.binder_steps())
+                    bs = self.binder_steps()
+                    if rng.random() < 0.15:
+                        # a binder wrapped in Spec() / Auto(): the wrapper is a spec of its own, what is
+                        # bound inside it stays inside it
+                        bs[-1] = [rng.choice(['Spec', 'Auto']), bs[-1]]
+                    steps.extend(bs)
                 elif r < 0.6:
                     steps.append(self.reader() if rng.random() < 0.5 else self.spec(d))
                 elif r < 0.7:
@@ -163,9 +168,16 @@ class _G:
             subs = [self.failing() if rng.random() < 0.5 else self.spec(d) for _ in range(rng.randint(1, 3))]
             return ['Coalesce', subs, {'default': self.token()}]
         if c == 'and':
-            return ['Coalesce', [['And', [self.spec(d) for _ in range(rng.randint(1, 3))]]], {'default': self.token()}]
+            subs = [self.spec(d) for _ in range(rng.randint(1, 3))]
+            if rng.random() < 0.4:
+                # a binder as a direct operand, then an operand that reads: operands are siblings
+                subs.insert(rng.randint(0, len(subs) - 1), self.binder_steps()[-1])
+                subs.append(self.observe(d))
+            return ['Coalesce', [['And', subs]], {'default': self.token()}]
         if c == 'or':
             subs = [self.failing() if rng.random() < 0.4 else self.spec(d) for _ in range(rng.randint(1, 3))]
+            if rng.random() < 0.3:
+                subs = [['tuple', self.binder_steps() + [self.failing()]]] + subs + [self.observe(d)]
             return ['Or', subs, {'default': self.token()}]
         if c == 'switch':
             cases = []
